@@ -1,5 +1,5 @@
 (* JsonSemNorm.v -- _inline_refs and normalize() on the propositional-scalar fragment (C06). *)
-From Fences Require Import Normalize NormShape JsonValid JsonGen JsonEnum JsonSem JsonSemDnf.
+From Fences Require Import Normalize NormShape JsonValid JsonGen JsonEnum JsonSem JsonSemAlts JsonSemDnf.
 From Coq Require Import String ZArith Lia.
 Local Open Scope list_scope.
 
@@ -77,40 +77,27 @@ Proof.
 Qed.
 End Inline.
 
-Lemma frag_empty m : frag (S m) (JObj []).
-Proof. split; [constructor|]. intros k v G. discriminate G. Qed.
-
-Lemma sem_empty m x : sem (S m) x (JObj []).
-Proof. cbn [sem]. repeat split; intros; discriminate. Qed.
 
 Lemma frag_norm_true m : frag (S (S m)) NORM_TRUE.
-Proof.
-  split; [one_key|]. intros k v G. sa_dec k v G. right. right. left. split; [reflexivity|].
-  exists [JObj []]. split; [reflexivity|]. intros s' [<-|[]]. apply frag_empty.
-Qed.
+Proof. apply frag_list1; [cbv; tauto|]. intros s [<-|[]]. apply frag_empty. Qed.
 
 Lemma sem_norm_true m x : sem (S (S m)) x NORM_TRUE.
+Proof. apply sem_any1. exists (JObj []). split; [left; reflexivity|apply sem_empty]. Qed.
+
+Lemma frag_false_alt m : frag (S m) (obj1 "enum" (JArr [])).
 Proof.
-  cbn [sem]. split; [|split; [|split]].
-  - intros k v G I. exfalso. sa_dec k v G. cbv in I. intuition discriminate.
-  - intros l G. discriminate G.
-  - intros l G. inversion G; subst. exists (JObj []). split; [left; reflexivity|apply sem_empty].
-  - intros n G. discriminate G.
+  split; [constructor; [intros []|constructor]|]. intros k v G. cbn [dget] in G.
+  destruct (str_eqb (kw "enum") k) eqn:E; [|discriminate]. apply str_eqb_true in E. subst k. inversion G; subst v.
+  change (smem (kw "enum") SK) with true. cbv iota. split; [exists []; split; reflexivity|intros X; cbv in X; discriminate X].
 Qed.
 
 Lemma frag_norm_false m : frag (S (S m)) NORM_FALSE.
-Proof.
-  split; [one_key|]. intros k v G. sa_dec k v G. right. right. left. split; [reflexivity|].
-  exists [obj1 "enum" (JArr [])]. split; [reflexivity|]. intros s' [<-|[]].
-  split; [one_key|]. intros k v G. sa_dec k v G. left. split; [cbv; tauto|]. split; [exists []; split; reflexivity|].
-  intros X. cbv in X. discriminate X.
-Qed.
+Proof. apply frag_list1; [cbv; tauto|]. intros s [<-|[]]. apply frag_false_alt. Qed.
 
 Lemma sem_norm_false m x : ~ sem (S (S m)) x NORM_FALSE.
 Proof.
-  cbn [sem]. intros (_ & _ & A & _). destruct (A _ eq_refl) as (s' & [<-|[]] & (Sc & _)).
-  specialize (Sc (kw "enum") (JArr []) eq_refl). revert Sc. kvat. intros Sc.
-  destruct Sc as (l & E & M); [cbv; tauto|]. inversion E; subst. discriminate M.
+  intros V. apply sem_any1 in V. destruct V as (s & [<-|[]] & V). unfold obj1 in V. cbn [sem] in V. destruct V as (Sc & _).
+  specialize (Sc (kw "enum") (JArr []) eq_refl ltac:(cbv; tauto)). revert Sc. kvat. intros (l & E & M). inversion E; subst. discriminate M.
 Qed.
 
 Lemma inline_obj f root d : inline_refs (S f) root (JObj d) =
@@ -139,6 +126,7 @@ Lemma inline_obj f root d : inline_refs (S f) root (JObj d) =
     Ok (JObj dd, c)).
 Proof. reflexivity. Qed.
 
+
 Ltac red_in H := cbn [bind] in H; cbv beta iota in H.
 
 Lemma R_all m x l l2 : Forall2 (R m) l l2 ->
@@ -157,66 +145,113 @@ Proof.
   clear - F. induction F as [|a b l l2 [_ E] F IH]; constructor; auto.
 Qed.
 
+Lemma R_one m x l l2 : Forall2 (R m) l l2 -> (one_of (sem (S m) x) l2 <-> one_of (sem m x) l).
+Proof.
+  intros F. apply (forall2_one_of (fun s => sem m x s) (fun s' => sem (S m) x s') l l2).
+  clear - F. induction F as [|a b l l2 [_ E] F IH]; constructor; auto.
+Qed.
+
 Lemma R_frag m l l2 : Forall2 (R m) l l2 -> forall s', In s' l2 -> frag (S m) s'.
 Proof. induction 1 as [|a b l l2 [Fb _] F IH]; intros s' H; [destruct H|]. destruct H as [<-|H]; auto. Qed.
 
-(* a keyword set and the one _inline_refs returns for it *)
+(* a dict of the fragment and the one _inline_refs returns for it *)
 Lemma rel_dict m d dd : frag (S m) (JObj d) -> map fst dd = map fst d ->
-  (forall key, key <> kw "anyOf" -> key <> kw "allOf" -> key <> kw "not" -> dget key dd = dget key d) ->
-  match dget (kw "anyOf") d with
-  | Some (JArr l) => exists l2, dget (kw "anyOf") dd = Some (JArr l2) /\ Forall2 (R m) l l2
-  | _ => dget (kw "anyOf") dd = dget (kw "anyOf") d end ->
-  match dget (kw "allOf") d with
-  | Some (JArr l) => exists l2, dget (kw "allOf") dd = Some (JArr l2) /\ Forall2 (R m) l l2
-  | _ => dget (kw "allOf") dd = dget (kw "allOf") d end ->
-  match dget (kw "not") d with
-  | Some s => exists s', dget (kw "not") dd = Some s' /\ R m s s'
-  | None => dget (kw "not") dd = None end ->
+  (forall key, ~ In key LK -> ~ In key UK -> dget key dd = dget key d) ->
+  (forall K, In K LK -> match dget K d with
+                        | Some (JArr l) => exists l2, dget K dd = Some (JArr l2) /\ Forall2 (R m) l l2
+                        | _ => dget K dd = dget K d end) ->
+  (forall K, In K UK -> match dget K d with
+                        | Some s => exists s', dget K dd = Some s' /\ R m s s'
+                        | None => dget K dd = None end) ->
   frag (S (S m)) (JObj dd) /\ forall x, sem (S (S m)) x (JObj dd) <-> sem (S m) x (JObj d).
 Proof.
-  intros [ND Hk] Keys Oth VA VL VN.
-  assert (KA : forall v, dget (kw "anyOf") d = Some v -> exists l, v = JArr l).
-  { intros v G. destruct (Hk _ _ G) as [[I _]|[[X _]|[[_ (l & -> & _)]|[X _]]]];
-      [exfalso; cbv in I; intuition discriminate|cbv in X; discriminate X|eauto|cbv in X; discriminate X]. }
-  assert (KL : forall v, dget (kw "allOf") d = Some v -> exists l, v = JArr l).
-  { intros v G. destruct (Hk _ _ G) as [[I _]|[[_ (l & -> & _)]|[[X _]|[X _]]]];
-      [exfalso; cbv in I; intuition discriminate|eauto|cbv in X; discriminate X|cbv in X; discriminate X]. }
-  assert (NSK : forall k, In k SK -> k <> kw "anyOf" /\ k <> kw "allOf" /\ k <> kw "not").
-  { intros k I. apply SK_enum in I. repeat (destruct I as [->|I]; [repeat split; intros X; cbv in X; discriminate X|]).
-    subst. repeat split; intros X; cbv in X; discriminate X. }
+  intros F Keys Oth HL HU.
+  assert (NSK : forall k, In k SK -> ~ In k LK /\ ~ In k UK).
+  { intros k I. apply SK_enum in I. repeat (destruct I as [->|I]; [split; intros X; cbv in X; intuition discriminate|]).
+    subst. split; intros X; cbv in X; intuition discriminate. }
+  assert (NC : ~ In (kw "const") LK /\ ~ In (kw "const") UK) by (split; intros X; cbv in X; intuition discriminate).
+  (* list-valued keys *)
+  assert (GL : forall K l2, In K LK -> dget K dd = Some (JArr l2) -> exists l, dget K d = Some (JArr l) /\ Forall2 (R m) l l2).
+  { intros K l2 I G. specialize (HL K I). destruct (dget K d) as [v|] eqn:G0; [|congruence].
+    destruct (frag_list m d F K v G0 I) as (l & -> & _). destruct HL as (l2' & G2 & F2). rewrite G2 in G. inversion G; subst. eauto. }
+  assert (GL' : forall K l, In K LK -> dget K d = Some (JArr l) -> exists l2, dget K dd = Some (JArr l2) /\ Forall2 (R m) l l2).
+  { intros K l I G. specialize (HL K I). rewrite G in HL. exact HL. }
+  assert (GU : forall K s', In K UK -> dget K dd = Some s' -> exists s, dget K d = Some s /\ R m s s').
+  { intros K s' I G. specialize (HU K I). destruct (dget K d) as [s|] eqn:G0; [|congruence].
+    destruct HU as (s2 & G2 & R2). rewrite G2 in G. inversion G; subst. eauto. }
+  assert (GU' : forall K s, In K UK -> dget K d = Some s -> exists s', dget K dd = Some s' /\ R m s s').
+  { intros K s I G. specialize (HU K I). rewrite G in HU. exact HU. }
+  assert (IA : In (kw "allOf") LK) by (cbv; tauto). assert (IY : In (kw "anyOf") LK) by (cbv; tauto).
+  assert (IO : In (kw "oneOf") LK) by (cbv; tauto). assert (IN : In (kw "not") UK) by (cbv; tauto).
+  assert (II : In (kw "if") UK) by (cbv; tauto). assert (IT : In (kw "then") UK) by (cbv; tauto).
+  assert (IE : In (kw "else") UK) by (cbv; tauto).
   split.
-  - split; [rewrite Keys; exact ND|]. intros key v G.
-    destruct (list_eq_dec Nat.eq_dec key (kw "anyOf")) as [->|N1].
-    { right. right. left. split; [reflexivity|]. destruct (dget (kw "anyOf") d) as [v0|] eqn:G0; [|congruence].
-      destruct (KA v0 eq_refl) as [l ->]. destruct VA as (l2 & G2 & F2). rewrite G2 in G. inversion G; subst.
+  - split; [rewrite Keys; exact (frag_nodup m d F)|]. intros key v G.
+    destruct (smem key SK) eqn:E1.
+    { apply smem_In in E1. destruct (NSK key E1) as [N1 N2]. rewrite (Oth key N1 N2) in G. exact (frag_scalar m d F key v G E1). }
+    destruct (smem key LK) eqn:E2.
+    { apply smem_In in E2. specialize (HL key E2). destruct (dget key d) as [v0|] eqn:G0; [|congruence].
+      destruct (frag_list m d F key v0 G0 E2) as (l & -> & _). destruct HL as (l2 & G2 & F2). rewrite G2 in G. inversion G; subst.
       exists l2. split; [reflexivity|]. eapply R_frag; eauto. }
-    destruct (list_eq_dec Nat.eq_dec key (kw "allOf")) as [->|N2].
-    { right. left. split; [reflexivity|]. destruct (dget (kw "allOf") d) as [v0|] eqn:G0; [|congruence].
-      destruct (KL v0 eq_refl) as [l ->]. destruct VL as (l2 & G2 & F2). rewrite G2 in G. inversion G; subst.
-      exists l2. split; [reflexivity|]. eapply R_frag; eauto. }
-    destruct (list_eq_dec Nat.eq_dec key (kw "not")) as [->|N3].
-    { right. right. right. split; [reflexivity|]. destruct (dget (kw "not") d) as [v0|] eqn:G0; [|congruence].
-      destruct VN as (s' & G2 & [F2 _]). rewrite G2 in G. inversion G; subst. exact F2. }
-    rewrite (Oth key N1 N2 N3) in G.
-    destruct (Hk key v G) as [Sc|[[-> _]|[[-> _]|[-> _]]]]; try congruence. left. exact Sc.
-  - intros x. cbn [sem]. split.
-    + intros (S1 & S2 & S3 & S4). split; [|split; [|split]].
-      * intros k v G I. destruct (NSK k I) as (N1 & N2 & N3). apply S1; auto. rewrite (Oth k N1 N2 N3). exact G.
-      * intros l G s Hs. rewrite G in VL. destruct VL as (l2 & G2 & F2).
-        revert s Hs. apply (R_all m x l l2 F2). apply S2. exact G2.
-      * intros l G. rewrite G in VA. destruct VA as (l2 & G2 & F2). apply (R_ex m x l l2 F2). apply S3. exact G2.
-      * intros n G. rewrite G in VN. destruct VN as (s' & G2 & [_ E]). intros V. apply (S4 s' G2). apply E. exact V.
-    + intros (S1 & S2 & S3 & S4). split; [|split; [|split]].
-      * intros k v G I. destruct (NSK k I) as (N1 & N2 & N3). apply S1; auto. rewrite <- (Oth k N1 N2 N3). exact G.
-      * intros l2 G2 s' Hs. destruct (dget (kw "allOf") d) as [v0|] eqn:G0; [|congruence].
-        destruct (KL v0 eq_refl) as [l ->]. destruct VL as (l2' & G2' & F2). rewrite G2' in G2. inversion G2; subst.
-        revert s' Hs. apply (R_all m x l l2 F2). apply S2. reflexivity.
-      * intros l2 G2. destruct (dget (kw "anyOf") d) as [v0|] eqn:G0; [|congruence].
-        destruct (KA v0 eq_refl) as [l ->]. destruct VA as (l2' & G2' & F2). rewrite G2' in G2. inversion G2; subst.
-        apply (R_ex m x l l2 F2). apply S3. reflexivity.
-      * intros n' G2. destruct (dget (kw "not") d) as [v0|] eqn:G0; [|congruence].
-        destruct VN as (s' & G2' & [_ E]). rewrite G2' in G2. inversion G2; subst. intros V. apply (S4 v0 eq_refl). apply E. exact V.
+    destruct (smem key UK) eqn:E3.
+    { apply smem_In in E3. destruct (GU key v E3 G) as (s & _ & [Fv _]). exact Fv. }
+    assert (N1 : ~ In key LK) by (intros X; apply smem_In in X; congruence).
+    assert (N2 : ~ In key UK) by (intros X; apply smem_In in X; congruence).
+    rewrite (Oth key N1 N2) in G. pose proof (proj2 F key v G) as Hk. rewrite E1, E2, E3 in Hk. exact Hk.
+  - intros x. rewrite (sem_split (S m) x dd), (sem_split m x d). unfold sem_noite.
+    rewrite (Oth (kw "const") (proj1 NC) (proj2 NC)).
+    assert (S1 : (forall k v, dget k dd = Some v -> In k SK -> kvalid k v x) <-> (forall k v, dget k d = Some v -> In k SK -> kvalid k v x)).
+    { split; intros H k v G I; destruct (NSK k I) as [N1 N2]; apply (H k v); auto; [rewrite (Oth k N1 N2)|rewrite <- (Oth k N1 N2)]; exact G. }
+    assert (S3 : (forall l, dget (kw "allOf") dd = Some (JArr l) -> forall s', In s' l -> sem (S m) x s') <->
+                 (forall l, dget (kw "allOf") d = Some (JArr l) -> forall s', In s' l -> sem m x s')).
+    { split.
+      - intros H l G. destruct (GL' _ l IA G) as (l2 & G2 & F2). apply (R_all m x l l2 F2). exact (H l2 G2).
+      - intros H l2 G2. destruct (GL _ l2 IA G2) as (l & G & F2). apply (R_all m x l l2 F2). exact (H l G). }
+    assert (S4 : (forall l, dget (kw "anyOf") dd = Some (JArr l) -> exists s', In s' l /\ sem (S m) x s') <->
+                 (forall l, dget (kw "anyOf") d = Some (JArr l) -> exists s', In s' l /\ sem m x s')).
+    { split.
+      - intros H l G. destruct (GL' _ l IY G) as (l2 & G2 & F2). apply (R_ex m x l l2 F2). exact (H l2 G2).
+      - intros H l2 G2. destruct (GL _ l2 IY G2) as (l & G & F2). apply (R_ex m x l l2 F2). exact (H l G). }
+    assert (S5 : (forall l, dget (kw "oneOf") dd = Some (JArr l) -> one_of (sem (S m) x) l) <->
+                 (forall l, dget (kw "oneOf") d = Some (JArr l) -> one_of (sem m x) l)).
+    { split.
+      - intros H l G. destruct (GL' _ l IO G) as (l2 & G2 & F2). apply (R_one m x l l2 F2). exact (H l2 G2).
+      - intros H l2 G2. destruct (GL _ l2 IO G2) as (l & G & F2). apply (R_one m x l l2 F2). exact (H l G). }
+    assert (SU : forall K, In K UK -> forall P : Prop,
+               ((forall s', dget K dd = Some s' -> (sem (S m) x s' -> P)) <-> (forall s, dget K d = Some s -> (sem m x s -> P))) /\
+               ((forall s', dget K dd = Some s' -> (~ sem (S m) x s' -> P)) <-> (forall s, dget K d = Some s -> (~ sem m x s -> P)))).
+    { intros K I P. split; split.
+      - intros H s G V. destruct (GU' K s I G) as (s' & G' & [_ E]). apply (H s' G'). apply E. exact V.
+      - intros H s' G' V. destruct (GU K s' I G') as (s & G & [_ E]). apply (H s G). apply E. exact V.
+      - intros H s G V. destruct (GU' K s I G) as (s' & G' & [_ E]). apply (H s' G'). intros V'. apply V. apply E. exact V'.
+      - intros H s' G' V. destruct (GU K s' I G') as (s & G & [_ E]). apply (H s G). intros V'. apply V. apply E. exact V'. }
+    assert (S6 : (forall n, dget (kw "not") dd = Some n -> ~ sem (S m) x n) <-> (forall n, dget (kw "not") d = Some n -> ~ sem m x n)).
+    { exact (proj1 (SU _ IN False)). }
+    assert (ST : (forall t, dget (kw "then") dd = Some t -> sem (S m) x t) <-> (forall t, dget (kw "then") d = Some t -> sem m x t)).
+    { split.
+      - intros H t G. destruct (GU' _ t IT G) as (t' & G' & [_ E]). apply E. exact (H t' G').
+      - intros H t' G'. destruct (GU _ t' IT G') as (t & G & [_ E]). apply E. exact (H t G). }
+    assert (SE : (forall t, dget (kw "else") dd = Some t -> sem (S m) x t) <-> (forall t, dget (kw "else") d = Some t -> sem m x t)).
+    { split.
+      - intros H t G. destruct (GU' _ t IE G) as (t' & G' & [_ E]). apply E. exact (H t' G').
+      - intros H t' G'. destruct (GU _ t' IE G') as (t & G & [_ E]). apply E. exact (H t G). }
+    assert (S7 : (forall i, dget (kw "if") dd = Some i ->
+                    (sem (S m) x i -> forall t, dget (kw "then") dd = Some t -> sem (S m) x t) /\
+                    (~ sem (S m) x i -> forall e, dget (kw "else") dd = Some e -> sem (S m) x e)) <->
+                 (forall i, dget (kw "if") d = Some i ->
+                    (sem m x i -> forall t, dget (kw "then") d = Some t -> sem m x t) /\
+                    (~ sem m x i -> forall e, dget (kw "else") d = Some e -> sem m x e))).
+    { split.
+      - intros H i G. destruct (GU' _ i II G) as (i' & G' & [_ E]). destruct (H i' G') as [H1 H2]. split.
+        + intros V. apply ST. apply H1. apply E. exact V.
+        + intros V. apply SE. apply H2. intros V'. apply V. apply E. exact V'.
+      - intros H i' G'. destruct (GU _ i' II G') as (i & G & [_ E]). destruct (H i G) as [H1 H2]. split.
+        + intros V. apply ST. apply H1. apply E. exact V.
+        + intros V. apply SE. apply H2. intros V'. apply V. apply E. exact V'. }
+    rewrite S1, S3, S4, S5, S6, S7. tauto.
 Qed.
+
+Ltac ne_kw := intros X; cbv in X; discriminate X.
 
 Theorem inline_sem root : forall f m s, frag m s -> ispec root f m s.
 Proof.
@@ -227,55 +262,61 @@ Proof.
     + split; [reflexivity|]. split; [apply frag_norm_true|]. intros x. cbn [sem]. split; [reflexivity|intros _; apply sem_norm_true].
     + split; [reflexivity|]. split; [apply frag_norm_false|]. intros x. cbn [sem].
       split; [intros V; exfalso; exact (sem_norm_false m x V)|discriminate].
-  - rewrite inline_obj in H. destruct Fs as [ND Hk].
-    assert (KA : forall v, dget (kw "anyOf") d = Some v -> exists l, v = JArr l /\ forall s', In s' l -> frag m s').
-    { intros v G. destruct (Hk _ _ G) as [[I _]|[[X _]|[[_ R0]|[X _]]]];
-        [exfalso; cbv in I; intuition discriminate|cbv in X; discriminate X|exact R0|cbv in X; discriminate X]. }
-    assert (KL : forall v, dget (kw "allOf") d = Some v -> exists l, v = JArr l /\ forall s', In s' l -> frag m s').
-    { intros v G. destruct (Hk _ _ G) as [[I _]|[[_ R0]|[[X _]|[X _]]]];
-        [exfalso; cbv in I; intuition discriminate|exact R0|cbv in X; discriminate X|cbv in X; discriminate X]. }
-    assert (KN : forall v, dget (kw "not") d = Some v -> frag m v).
-    { intros v G. destruct (Hk _ _ G) as [[I _]|[[X _]|[[X _]|[_ R0]]]];
-        [exfalso; cbv in I; intuition discriminate|cbv in X; discriminate X|cbv in X; discriminate X|exact R0]. }
-    assert (Absent : forall k, ~ In k (SK ++ CK) -> dget k d = None).
-    { intros k N. destruct (dget k d) eqn:G; auto. exfalso. apply N. apply in_or_app.
-      destruct (Hk k j G) as [[I _]|[[-> _]|[[-> _]|[-> _]]]]; auto; right; cbv; tauto. }
-    assert (A : forall s, ~ In (kw s) (SK ++ CK) -> dget (kw s) d = None) by (intros; apply Absent; auto).
-    rewrite (A "$ref"%string) in H by (cbv; intuition discriminate).
+  - rewrite inline_obj in H.
+    rewrite (frag_absent m d Fs (kw "$ref")) in H by (cbv; intuition discriminate).
     cbn [bind foldM] in H.
-    (* anyOf *)
+    assert (SpL : forall K l, In K LK -> dget K d = Some (JArr l) -> forall s, In s l -> ispec root f m s).
+    { intros K l I G s Hs. destruct (frag_list m d Fs K _ G I) as (l' & E & Fl). inversion E; subst. apply IH. auto. }
+    assert (ShL : forall K, In K LK -> dget K d = None \/ exists l, dget K d = Some (JArr l)).
+    { intros K I. destruct (dget K d) as [v|] eqn:G; auto. right. destruct (frag_list m d Fs K v G I) as (l & -> & _). eauto. }
+    assert (SpU : forall K s, In K UK -> dget K d = Some s -> ispec root f m s).
+    { intros K s I G. apply IH. exact (frag_single m d Fs K s G I). }
+    assert (IA : In (kw "allOf") LK) by (cbv; tauto). assert (IY : In (kw "anyOf") LK) by (cbv; tauto).
+    assert (IO : In (kw "oneOf") LK) by (cbv; tauto). assert (IN : In (kw "not") UK) by (cbv; tauto).
+    assert (II : In (kw "if") UK) by (cbv; tauto). assert (IT : In (kw "then") UK) by (cbv; tauto).
+    assert (IE : In (kw "else") UK) by (cbv; tauto).
+    (* anyOf, allOf, oneOf *)
     match type of H with bind (bind ?X _) _ = _ => destruct X as [[dd1 c1]| | |] eqn:E1 end; red_in H; try discriminate.
-    destruct (list_step root f m (kw "anyOf") d false dd1 c1 E1) as (-> & K1 & O1 & V1).
-    { intros l G s Hs. destruct (KA _ G) as (l0' & E & Fl). inversion E; subst. apply IH. auto. }
-    { destruct (dget (kw "anyOf") d) as [v|] eqn:G; auto. right. destruct (KA v eq_refl) as (l & -> & _). eauto. }
-    (* allOf *)
+    destruct (list_step root f m (kw "anyOf") d false dd1 c1 E1 (fun l G => SpL _ l IY G) (ShL _ IY)) as (-> & K1 & O1 & V1).
     match type of H with bind (bind ?X _) _ = _ => destruct X as [[dd2 c2]| | |] eqn:E2 end; red_in H; try discriminate.
-    assert (GL : dget (kw "allOf") dd1 = dget (kw "allOf") d) by (apply O1; intros X; cbv in X; discriminate X).
-    destruct (list_step root f m (kw "allOf") dd1 false dd2 c2 E2) as (-> & K2 & O2 & V2).
-    { rewrite GL. intros l G s Hs. destruct (KL _ G) as (l0' & E & Fl). inversion E; subst. apply IH. auto. }
-    { rewrite GL. destruct (dget (kw "allOf") d) as [v|] eqn:G; auto. right. destruct (KL v eq_refl) as (l & -> & _). eauto. }
-    (* oneOf is absent *)
-    assert (GO : dget (kw "oneOf") dd2 = None).
-    { rewrite O2 by (intros X; cbv in X; discriminate X). rewrite O1 by (intros X; cbv in X; discriminate X).
-      apply A. cbv. intuition discriminate. }
-    rewrite GO in H. red_in H.
-    (* not *)
+    assert (G2 : dget (kw "allOf") dd1 = dget (kw "allOf") d) by (apply O1; ne_kw).
+    destruct (list_step root f m (kw "allOf") dd1 false dd2 c2 E2) as (-> & K2 & O2 & V2);
+      [rewrite G2; exact (fun l G => SpL _ l IA G)|rewrite G2; exact (ShL _ IA)|].
     match type of H with bind (bind ?X _) _ = _ => destruct X as [[dd3 c3]| | |] eqn:E3 end; red_in H; try discriminate.
-    assert (GN : dget (kw "not") dd2 = dget (kw "not") d).
-    { rewrite O2 by (intros X; cbv in X; discriminate X). apply O1. intros X; cbv in X; discriminate X. }
-    destruct (single_step root f m (kw "not") dd2 false dd3 c3 E3) as (-> & K3 & O3 & V3).
-    { rewrite GN. intros s G. apply IH. auto. }
-    (* if / then / else are absent *)
-    assert (GI : forall s, ~ In (kw s) (SK ++ CK) -> kw s <> kw "not" -> kw s <> kw "allOf" -> kw s <> kw "anyOf" -> dget (kw s) dd3 = None).
-    { intros s N N1 N2 N3. rewrite O3, O2, O1 by auto. apply A. exact N. }
-    rewrite (GI "if"%string) in H by (cbv; intuition discriminate). red_in H.
-    rewrite (GI "then"%string) in H by (cbv; intuition discriminate). red_in H.
-    rewrite (GI "else"%string) in H by (cbv; intuition discriminate). red_in H.
+    assert (G3 : dget (kw "oneOf") dd2 = dget (kw "oneOf") d) by (rewrite O2 by ne_kw; apply O1; ne_kw).
+    destruct (list_step root f m (kw "oneOf") dd2 false dd3 c3 E3) as (-> & K3 & O3 & V3);
+      [rewrite G3; exact (fun l G => SpL _ l IO G)|rewrite G3; exact (ShL _ IO)|].
+    (* not, if, then, else *)
+    match type of H with bind (bind ?X _) _ = _ => destruct X as [[dd4 c4]| | |] eqn:E4 end; red_in H; try discriminate.
+    assert (G4 : dget (kw "not") dd3 = dget (kw "not") d) by (rewrite O3, O2 by ne_kw; apply O1; ne_kw).
+    destruct (single_step root f m (kw "not") dd3 false dd4 c4 E4) as (-> & K4 & O4 & V4);
+      [rewrite G4; exact (fun s G => SpU _ s IN G)|].
+    match type of H with bind (bind ?X _) _ = _ => destruct X as [[dd5 c5]| | |] eqn:E5 end; red_in H; try discriminate.
+    assert (G5 : dget (kw "if") dd4 = dget (kw "if") d) by (rewrite O4, O3, O2 by ne_kw; apply O1; ne_kw).
+    destruct (single_step root f m (kw "if") dd4 false dd5 c5 E5) as (-> & K5 & O5 & V5);
+      [rewrite G5; exact (fun s G => SpU _ s II G)|].
+    match type of H with bind (bind ?X _) _ = _ => destruct X as [[dd6 c6]| | |] eqn:E6 end; red_in H; try discriminate.
+    assert (G6 : dget (kw "then") dd5 = dget (kw "then") d) by (rewrite O5, O4, O3, O2 by ne_kw; apply O1; ne_kw).
+    destruct (single_step root f m (kw "then") dd5 false dd6 c6 E6) as (-> & K6 & O6 & V6);
+      [rewrite G6; exact (fun s G => SpU _ s IT G)|].
+    match type of H with bind (bind ?X _) _ = _ => destruct X as [[dd7 c7]| | |] eqn:E7 end; red_in H; try discriminate.
+    assert (G7 : dget (kw "else") dd6 = dget (kw "else") d) by (rewrite O6, O5, O4, O3, O2 by ne_kw; apply O1; ne_kw).
+    destruct (single_step root f m (kw "else") dd6 false dd7 c7 E7) as (-> & K7 & O7 & V7);
+      [rewrite G7; exact (fun s G => SpU _ s IE G)|].
     inversion H; subst s' c. clear H.
     split; [reflexivity|].
-    apply rel_dict; [split; assumption|congruence| | | |].
-    + intros key N1 N2 N3. rewrite O3, O2, O1 by auto. reflexivity.
-    + rewrite O3, O2 by (intros X; cbv in X; discriminate X). exact V1.
-    + rewrite O3 by (intros X; cbv in X; discriminate X). rewrite GL in V2. exact V2.
-    + rewrite GN in V3. exact V3.
+    apply rel_dict; [exact Fs|congruence| | |].
+    + intros key N1 N2.
+      assert (Nk : forall s, In (kw s) LK \/ In (kw s) UK -> key <> kw s) by (intros s [I|I] ->; contradiction).
+      rewrite O7, O6, O5, O4, O3, O2, O1 by (apply Nk; cbv; tauto). reflexivity.
+    + intros K I. unfold LK, kws in I. cbn [map In] in I. destruct I as [<-|[<-|[<-|[]]]].
+      * rewrite O7, O6, O5, O4, O3 by ne_kw. rewrite G2 in V2. exact V2.
+      * rewrite O7, O6, O5, O4, O3, O2 by ne_kw. exact V1.
+      * rewrite O7, O6, O5, O4 by ne_kw. rewrite G3 in V3. exact V3.
+    + intros K I. unfold UK, kws in I. cbn [map In] in I. destruct I as [<-|[<-|[<-|[<-|[]]]]].
+      * rewrite O7, O6, O5 by ne_kw. rewrite G4 in V4. exact V4.
+      * rewrite O7, O6 by ne_kw. rewrite G5 in V5. exact V5.
+      * rewrite O7 by ne_kw. rewrite G6 in V6. exact V6.
+      * rewrite G7 in V7. exact V7.
 Qed.
+
